@@ -58,7 +58,12 @@ impl Error {
 
         while let Some(err) = source {
             if let Some(io_err) = err.downcast_ref::<std::io::Error>() {
-                return io_err.kind() == std::io::ErrorKind::TimedOut;
+                // An expired socket timeout is reported as `WouldBlock` on Unix
+                // and as `TimedOut` on Windows
+                return matches!(
+                    io_err.kind(),
+                    std::io::ErrorKind::TimedOut | std::io::ErrorKind::WouldBlock
+                );
             }
 
             source = err.source();
